@@ -7,6 +7,7 @@ import (
 	"fmt"
 	"go/token"
 	"go/types"
+	"sort"
 
 	"golang.org/x/tools/go/ssa"
 )
@@ -188,15 +189,18 @@ func (fx *FX) sortSearch(fr *frame, st *State, callee *ssa.Function, args []Val,
 	fx.assume(s1.reach, atR)
 	fx.assume(s2.reach, Not(atPrev))
 	// effects of the predicate (it may run any number of times)
-	if log.all {
-		fx.havocAll(st)
-	} else {
+	{
 		var ks []string
 		for k := range log.comps {
 			if k == "$alloc" {
 				continue
 			}
 			ks = append(ks, k)
+		}
+		sort.Strings(ks)
+		if log.all {
+			ks = append([]string{"*"}, ks...)
+			logComp("*")
 		}
 		fx.havoc(st, ks)
 		for _, k := range ks {
